@@ -2,7 +2,7 @@
 import json
 import math
 
-from sim import bridge, kernelmat, runner
+from sim import bridge, kernelmat, models, runner
 
 PROPOSALS = ["bootstrap", "semi-adapted", "fully-adapted"]
 
@@ -103,7 +103,16 @@ def run_configs(ctx, configs, budget_s, mandatory=0):
                             break
             else:
                 cmin = c
-            ctx.violation(key, detail + " | config " + json.dumps(cmin, sort_keys=True), {"config": cmin, "key": key})
+            rep = {"config": cmin, "key": key}
+            if key.get("sub") == "invariance" and ctx.findings.match(ctx.prop, key) is None and not ctx.replaying and kj not in ctx._vio_keys:
+                try:
+                    st3, probs3 = kernelmat.run_config(cmin)
+                    col = [e for k3, d3, e in probs3 if k3 == key][0]["column"]
+                    rep["witness_column"] = models.canon_str(kernelmat.context(cmin)["canons"][col])
+                    rep["heaviest_paths_into_witness"] = kernelmat.witness_paths(cmin, col) if cmin["n"] <= 3 else []
+                except Exception:
+                    pass
+            ctx.violation(key, detail + " | config " + json.dumps(cmin, sort_keys=True), rep)
     ctx.cov["evaluations"] += trees
     ctx.cov["distinct_nontrivial"] += len(nontrivial)
     ctx.cov["configurations_traversed"] = ctx.cov.get("configurations_traversed", 0) + done
@@ -153,6 +162,12 @@ def replay(ctx, obj):
         return
 
     bridge.warm_up()
+    for w in obj.get("heaviest_paths_into_witness", []):
+        end, p = kernelmat.replay_path(obj["config"], w["start_index"], w["script"])
+        print("replayed path from %s: script of %d choices -> %s with probability %.6g (recorded %.6g)" % (
+            w["start"], len(w["script"]), end, p, w["probability"]))
+        if end != obj.get("witness_column") or abs(p - w["probability"]) > 1e-12:
+            raise runner.HarnessError("a recorded path does not replay exactly")
     st, probs = kernelmat.run_config(obj["config"])
     for key, detail, extra in probs:
         if key == obj["key"]:
